@@ -17,7 +17,9 @@ from pathlib import Path
 REPO = os.environ.get("SPECMC_REPO", "/repo")
 if REPO not in sys.path[:1]:
     sys.path.insert(0, REPO)
-os.environ.setdefault("OPENAPI_PYTHON_CLIENT_VERIF", "1")  # guard name (no hooks exist, see MANIFEST.hooks)
+os.environ.setdefault("OPENAPI_PYTHON_CLIENT_VERIF", "1")
+if REPO != "/repo":      # child interpreters (CLI subprocesses, hash-seed sweeps) must import the same checkout
+    os.environ["PYTHONPATH"] = REPO + (os.pathsep + os.environ["PYTHONPATH"] if os.environ.get("PYTHONPATH") else "")  # guard name (no hooks exist, see MANIFEST.hooks)
 
 from jinja2.bccache import BytecodeCache  # noqa: E402
 
@@ -188,7 +190,7 @@ def generate(doc, *, meta="none", out=None, overwrite=True, encoding="utf-8", cu
                 res.rejected = True
                 return res
             res.data = data
-            _record_claims(res, data)
+            _record_claims(res, data, cfg)
             proj = Project(openapi=data, config=cfg,
                            custom_template_path=Path(custom_template_path) if custom_template_path else None)
             errs = proj.build()
@@ -207,7 +209,7 @@ def generate(doc, *, meta="none", out=None, overwrite=True, encoding="utf-8", cu
             shutil.rmtree(out, ignore_errors=True)
 
 
-def _record_claims(res, data):
+def _record_claims(res, data, cfg):
     """The generator's own claims about which class/module/function belongs to which document item
     (harness-side calling convention only; every *observation* is made on the generated tree)."""
     models, enums = list(data.models), list(data.enums)
@@ -221,7 +223,7 @@ def _record_claims(res, data):
         for ep in coll.endpoints:
             def plist(ps):
                 return [{"name": p.name, "py": str(p.python_name), "required": p.required} for p in ps]
-            eps.append({"tag": str(tag), "name": ep.name, "method": ep.method, "path": ep.path,
+            eps.append({"tag": str(tag), "name": ep.name, "module": str(opc.utils.PythonIdentifier(ep.name, cfg.field_prefix)), "method": ep.method, "path": ep.path,
                         "path_params": plist(ep.path_parameters), "query_params": plist(ep.query_parameters),
                         "header_params": plist(ep.header_parameters), "cookie_params": plist(ep.cookie_parameters),
                         "bodies": [{"content_type": b.content_type, "body_type": str(b.body_type.value)} for b in ep.bodies],
